@@ -167,7 +167,7 @@ func TestC03(t *testing.T) {
 		}
 		return
 	}
-	ev.Rule("per space: declared chromaticities vs published values; 9+9 coefficients recovered by probing basis vectors; then the 8-bit-spaced lattice (64^3 quick / 256^3 thorough) of RGB triples and of XYZ triples, plus rapid float32 triples in [-1,2]^3 (a quarter with components of independent magnitude 1e-44..1e30 and sign), through ToXYZ, ColorFromXYZ and both round trips. non-trivial = distinct triple with a component outside [0,1] or all three components different")
+	ev.Rule("per space: declared chromaticities vs published values; 9+9 coefficients recovered by probing basis vectors; then the 8-bit-spaced lattice (64^3 quick / 256^3 thorough) of RGB triples and of XYZ triples, plus rapid float32 triples in [-1,2]^3 (a quarter within 1e-7..3e-2 of a landmark of the RGB cube - 0, 1, 1/2, a common grey - by a different amount per component; a quarter with components of independent magnitude 1e-44..1e30 and sign), through ToXYZ, ColorFromXYZ and both round trips. non-trivial = distinct triple with a component outside [0,1] or all three components different")
 	ev.Assume("published chromaticities transcribed in internal/ref; equality with published values at the precision of publication (5e-5)")
 	ev.Set("tolerances", map[string]float64{"coefficient": 1e-6, "transform": 1.5e-6, "roundtrip": 2e-6, "published": 5e-5})
 
@@ -304,6 +304,32 @@ func TestC03(t *testing.T) {
 						v[i] = -v[i]
 					}
 				}
+			}
+		}
+		if rapid.IntRange(0, 3).Draw(rt, "near") == 0 {
+			// close to a landmark of the RGB cube without being on it: each component within 1e-7 .. 3e-2 of 0, 1, 1/2 or
+			// of one common grey level, on either side and by a different amount per component (faintly tinted
+			// highlights and shadows, almost-neutral greys, almost-pure primaries)
+			grey := rapid.Float32Range(0, 1).Draw(rt, "grey")
+			anchors := []float32{0, 1, 0.5, grey}
+			corner := rapid.IntRange(0, 3).Draw(rt, "sameanchor") // 0: every component its own landmark
+			for i := range v {
+				an := anchors[rapid.IntRange(0, 3).Draw(rt, "anchor")]
+				if corner == 1 {
+					an = 1
+				} else if corner == 2 {
+					an = grey
+				}
+				d := float32(math.Pow(10, rapid.Float64Range(-7, -1.5).Draw(rt, "dist")))
+				if rapid.Bool().Draw(rt, "above") {
+					d = -d
+				}
+				v[i] = an - d
+			}
+			if dir == "fromXYZ" || dir == "rt-xyz" {
+				// the XYZ value of that colour (reference matrix, rounded to float32)
+				x := refMats(a).to.MulV(ref.V3{float64(v[0]), float64(v[1]), float64(v[2])})
+				v = [3]float32{float32(x[0]), float32(x[1]), float32(x[2])}
 			}
 		}
 		c := Case{a.Name, dir, v}
